@@ -2315,8 +2315,11 @@ def run_one_scenario(ctx: Ctx, spec):
         spec = {**spec, "self_unload": "own-task" if r < 0.06 else "periodic" if r < 0.13 else "cache-task" if r < 0.18 else False}
     if "pre" not in spec and ctx.replay_input is None:
         r = ctx.rng.random()
-        spec = {**spec, "pre": "shutdown_task_manager" if r < 0.07 else "cancel_all_pending_tasks" if r < 0.11
-                else "request_cache.shutdown" if r < 0.15 else "unload-twice" if r < 0.18 else None}
+        # (only when the unload is requested from outside: a task of the overlay that cancels all tasks of the overlay cancels
+        # itself before it gets to call unload — that would be the application's doing, not the overlay's)
+        spec = {**spec, "pre": None if spec.get("self_unload") else
+                "shutdown_task_manager" if r < 0.08 else "cancel_all_pending_tasks" if r < 0.12
+                else "request_cache.shutdown" if r < 0.16 else "unload-twice" if r < 0.20 else None}
     ctx.count("unload-requested-from:" + (str(spec.get("self_unload")) if spec.get("self_unload") else "outside"))
     ctx.count("history-before-unload:" + (spec.get("pre") or "none"))
     viol, st = run_scenario(spec)
